@@ -397,7 +397,8 @@ def run_quiesce(s, J, op, plan, degenerate, results, counts):
             and tol >= 1e-9)
     gscale = plan["family"].get("alpha_max_rm") or 0.0
     if op.get("liveness", True) and easy and not claimed and gscale > 0 and tol >= 1e-6 * gscale \
-            and s.solver_name in B.C01_SOLVERS | {"FISTA"} and s.solver_name != "LBFGS":
+            and s.solver_name in B.C01_SOLVERS | {"FISTA"} and s.solver_name != "LBFGS" \
+            and (s.solver_name != "FISTA" or tol >= 1e-3 * gscale):   # FISTA is O(1 / k^2)
         props = ["C02"] + (["C05"] if warm else [])
         out.append(dict(prop=props, oracle="liveness", sig=sig0 + ("no_convergence_ample_budget",),
                         detail=dict(stop_crit=res["stop_crit"], tol=tol, knobs=knobs),
@@ -511,8 +512,8 @@ def judge_critical(s, J, pr, res, w, b, tol, claimed, plan):
         nz = [k for k in range(pen.units(pr.p)) if pmask[k] and np.any(wv[pen.unit_indices(k)] != 0)]
     else:
         nz = [int(j) for j in range(pr.p) if pmask[j] and np.any(wv[j] != 0)]
-    if amax <= 0:
-        return out
+    if amax <= 1e-8 or tol < 1e-13:
+        return out      # no critical strength to speak of (e.g. all-zero counts)
     crit = criterion_of(s.solver_name, res["knobs"])
     colmean = float(np.max(np.abs(pr.X.mean(axis=0)), initial=0.0))
     wts = np.asarray(getattr(pen, "weights", [1.0]), dtype=float)
